@@ -83,5 +83,18 @@ PROPS = {
    explanation="Budget ghost counted by the queue contract (dequeued non-reload-all ReloadOne while max_fails >= 1): restarts == ghost and < max_fails while running, return -1 exactly when reached; ReloadAll appends ReloadOne(i, True) in order, "
                "each slot restarted at most once per tick; Shutdown: every worker alive when examined signalled exactly once, nobody twice, os.kill only on own un-reaped workers, nothing started, returns None; signal wiring.",
    assumptions=["multiprocessing/os model of specs/u_pm.py TRUSTED (os.kill requires an un-reaped own child)"], not_decided=[]),
+ 'C19': dict(units=['u_ser'], design_ref='DESIGN.md 4 C19, A.8',
+   explanation="No Exception escapes any preparation function (user repr/str/constructors/coders may raise anything); cycle cut (recursive calls only while the current exception is in SEEN, callee returns None for an "
+               "exception on the path, finally restores SEEN); link correspondence: ExceptionRepr built from the right fields and exception_to_python restores cause/context/suppress. Equality through json/pickle/pydantic is NOT "
+               "decided deductively: bounded supplement (exception graphs up to depth 3) - labelled bounded, never counted as proved.",
+   assumptions=["printable-exceptions assumption; attribute reads pure; id() injective", "json/pickle/pydantic behaviour is external: exercised only by the bounded supplement"],
+   not_decided=["'original class with equal arguments whenever importable and representable': lives inside json/pickle/pydantic (bounded supplement only)", "second-order pathologies (an exception raised by __repr__ whose own __repr__ raises)"],
+   supplements=[dict(name='exception-graphs', driver='ser', args={'parts': ['graphs']}, bound='exception graphs up to depth 3 over 9 classes x 15 argument kinds x cause/context/suppress/cycle shapes; JSON-text, JSON-dict and pickle round trips of TaskiqResult')]),
+ 'C20': dict(units=['u_gate'], design_ref='DESIGN.md 4 C20, A.8',
+   explanation="Call-target safety: the two dynamic calls on the load path are reached only with isinstance(callee, type) and issubclass(callee, BaseException) proved (gate / create_exception_cls post); failing gate raises SecurityError; "
+               "unresolvable types yield the synthetic class; syntactic frame: no import machinery, sys.modules lookup only, every callee accounted for; recursion re-enters the same contract.",
+   assumptions=["attribute lookup is pure (property getters on planted instances are not decided)", "@validate_call passes declared types through"],
+   not_decided=["side effects of getattr itself on planted instances"],
+   supplements=[dict(name='gate-payloads', driver='ser', args={'parts': ['gate']}, bound='25 (module, dotted name) payloads incl. functions, builtins, non-exception classes, instances, modules, trap callables x 3 nesting levels x 3 argument tuples')]),
 }
 NOT_APPLICABLE = {}
